@@ -10,7 +10,7 @@ ENV.pop("GOWORK", None)
 
 
 def sh(cmd, cwd, timeout=900):
-    p = subprocess.run(cmd, shell=True, cwd=cwd, env=ENV, capture_output=True, text=True, timeout=timeout)
+    p = subprocess.run(cmd, shell=True, cwd=cwd, env=ENV, capture_output=True, text=True, errors="replace", timeout=timeout)
     return p.returncode, (p.stdout + p.stderr)[-3000:]
 
 
@@ -32,9 +32,9 @@ def verify(seeds, sid):
         dests = []
         for src, dst in copies:
             if dst.endswith("/"):
-                dst = dst + src
+                dst = dst + os.path.basename(src)
             if os.path.isdir(os.path.join(wt, dst)):
-                dst = os.path.join(dst, src)
+                dst = os.path.join(dst, os.path.basename(src))
             shutil.copy(os.path.join(d, src), os.path.join(wt, dst))
             dests.append(dst)
             pkgs.add("./" + os.path.dirname(dst) + "/")
